@@ -5,6 +5,7 @@
   rounding is covered by the correspondence check `harness/c12.py`.
 -/
 import AeicProofs.Lemmas.C12EI
+import AeicProofs.Lemmas.KernelBridge
 
 namespace C12
 open Aeic Aeic.EI Aeic.Gen
@@ -568,5 +569,80 @@ theorem meem_inlet_pressure_fails_as_is : ¬ MeemInletPressurePositiveStatement 
     norm_num
   simp only [Bool.false_eq_true, if_false] at h1
   nlinarith
+
+
+/-! ## Source tie: the same statements about the definitions regenerated from `/repo`'s Python source
+    (`Aeic.Kern.*`, written by `harness/common/pykern.py` on every run; related to the models by
+    `AeicProofs/Lemmas/KernelBridge.lean`).  These re-check on every `lake build` that what the source text says *now*
+    still has the property; the `Float` evaluation of the same generated definitions is compared with the running
+    implementation by `harness/kernels.py`. -/
+
+/-- the ISA functions of `utils/standard_atmosphere.py`, as translated, are the models of this file -/
+theorem src_isa_is_model (x y : ℝ) :
+    Kern.isa_temperature x = isaTemperature x ∧ Kern.isa_pressure x = isaPressure x ∧
+    Kern.isa_altitude x = isaAltitude x ∧ Kern.speed_of_sound x = speedOfSound x ∧
+    Kern.speed_of_sound_at_altitude x = speedOfSound (isaTemperature x) ∧ Kern.air_density x y = airDensity x y :=
+  ⟨KernelBridge.isa_temperature x, KernelBridge.isa_pressure x, KernelBridge.isa_altitude x,
+   KernelBridge.speed_of_sound x, KernelBridge.speed_of_sound_at_altitude x, KernelBridge.air_density x y⟩
+
+/-- altitude → pressure → altitude is the identity, for the source as translated -/
+theorem src_pressure_altitude_inverse (h : ℝ) : Kern.isa_altitude (Kern.isa_pressure h) = h := by
+  rw [KernelBridge.isa_pressure, KernelBridge.isa_altitude]; exact pressure_altitude_inverse h
+
+theorem src_altitude_pressure_inverse (p : ℝ) (hp : 0 < p) : Kern.isa_pressure (Kern.isa_altitude p) = p := by
+  rw [KernelBridge.isa_altitude, KernelBridge.isa_pressure]; exact altitude_pressure_inverse p hp
+
+theorem src_isa_temperature_published (h : ℝ) :
+    (h ≤ 11000 → Kern.isa_temperature h = 288.15 - 0.0065 * h) ∧ (11000 < h → Kern.isa_temperature h = 216.65) := by
+  rw [KernelBridge.isa_temperature]; exact isa_temperature_published h
+
+theorem src_isa_pressure_strictly_decreasing (h1 h2 : ℝ) (h : h1 < h2) : Kern.isa_pressure h2 < Kern.isa_pressure h1 := by
+  rw [KernelBridge.isa_pressure, KernelBridge.isa_pressure]; exact isa_pressure_strictly_decreasing h1 h2 h
+
+/-- Fuel Flow Method 2 eq. 40 as the source computes it: linear in the flow, identity at the reference state -/
+theorem src_sls_flow (c ff P T M n : ℝ) :
+    Kern.sls_fuel_flow (c * ff) P T M n = c * Kern.sls_fuel_flow ff P T M n ∧
+    Kern.sls_fuel_flow ff 101325 288.15 0 n = ff / n := by
+  rw [KernelBridge.sls_fuel_flow, KernelBridge.sls_fuel_flow, KernelBridge.sls_fuel_flow]
+  exact ⟨sls_flow_linear c ff P T M n, sls_flow_identity_at_reference ff n⟩
+
+/-- sulfur is conserved by `EI_SOx` as the source computes it (fuel attributes `fuel_sulfur_content_nom`, `sulfate_yield_nom`) -/
+theorem src_sox_sulfur_conserved (s y : ℝ) :
+    Kern.sox_so2 (KernelBridge.fuelEnv s y) / 64 + Kern.sox_so4 (KernelBridge.fuelEnv s y) / 96 = s / 1e6 * 1e3 / 32 ∧
+    Kern.sox_total (KernelBridge.fuelEnv s y)
+      = Kern.sox_so2 (KernelBridge.fuelEnv s y) + Kern.sox_so4 (KernelBridge.fuelEnv s y) := by
+  rw [KernelBridge.sox_so2, KernelBridge.sox_so4, KernelBridge.sox_total]
+  exact ⟨sox_sulfur_conserved s y, rfl⟩
+
+/-- the speciation percentages in the source add up to 100 in every thrust regime, and are the model's -/
+theorem src_speciation_sums :
+    (Kern.nox_spec_no_L + Kern.nox_spec_no2_L + Kern.nox_spec_hono_L : ℝ) = 100 ∧
+    (Kern.nox_spec_no_A + Kern.nox_spec_no2_A + Kern.nox_spec_hono_A : ℝ) = 100 ∧
+    (Kern.nox_spec_no_H + Kern.nox_spec_no2_H + Kern.nox_spec_hono_H : ℝ) = 100 := by
+  obtain ⟨a, b, c, d, e, f, g, h, i⟩ := KernelBridge.nox_spec
+  rw [a, b, c, d, e, f, g, h, i]
+  refine ⟨?_, ?_, ?_⟩ <;> simp only [noL, noA, noH, no2L, no2A, no2H, honoL, honoA, honoH, lit_real] <;> norm_num
+
+/-- the BFFM2 humidity correction the source computes is eq. 45 with the as-is humidity reference (open finding
+    `C12-bffm2-humidity-reference`, today) or with the published one (after a repair): either way it is DuBois & Paynter's eq. 45,
+    and the specific humidity is the model's -/
+theorem src_nox_correction_variant :
+    ((∀ T P : ℝ, Kern.nox_correction T P = bffm2Correction humRefAsIs T P) ∨
+     (∀ T P : ℝ, Kern.nox_correction T P = bffm2Correction humRefPublished T P)) ∧
+    (∀ T P : ℝ, Kern.nox_humidity_omega T P = specificHumidity T P) :=
+  ⟨KernelBridge.nox_correction, KernelBridge.nox_humidity_omega⟩
+
+theorem src_hcco_ambient (T P : ℝ) : Kern.hcco_ambient_factor T P = hccoAmbient T P := KernelBridge.hcco_ambient_factor T P
+
+/-- the MEEM compressor chain of the source (altitude rate and maximum altitude as inputs) is the model's `meemPoint`, with the
+    pressure coefficient unbounded (as-is, open finding `C12-meem-pressure-coefficient-unbounded`) or clipped (after a repair) -/
+theorem src_meem_point :
+    ∃ clip : Bool, ∀ alt rate maxAlt T P M pr : ℝ,
+    Kern.meem_point_fg alt rate maxAlt T P M pr = (meemPoint clip pr alt (alt - rate) maxAlt T P M).fg ∧
+    Kern.meem_point_p3 alt rate maxAlt T P M pr = (meemPoint clip pr alt (alt - rate) maxAlt T P M).p3 ∧
+    Kern.meem_point_p3_ref alt rate maxAlt T P M pr = (meemPoint clip pr alt (alt - rate) maxAlt T P M).p3ref :=
+  KernelBridge.meem_point
+
+example : Kern.isa_altitude (Kern.isa_pressure (9000 : ℝ)) = 9000 := src_pressure_altitude_inverse _
 
 end C12
